@@ -207,6 +207,15 @@ def dep_helper(ctx, o):
     if len(loops) < 2 or not rets_true:
         o.undecided(f, f.node, f.name, "helper is not two nested loops returning True on a hit")
         return
+    cfg0 = cfg_of(f)
+    for r in [n for n in walk_no_nested(body) if isinstance(n, ast.Return)]:
+        if isinstance(r.value, ast.Constant) and r.value.value is True:
+            continue
+        if not cfg0.dominates(cfg0.node_of(loops[0]), cfg0.node_of(r)):
+            conds = facts.cond_texts(facts.node_conditions(prog, f, r, ctx.typer, expand=False))
+            o.refute(f, r, r, f"the helper answers `{src(r.value) if r.value is not None else 'None'}` before it scanned the subtree (under "
+                              f"{conds}): links of descendants are not checked on that path")
+            return
     it0 = ex.expand(loops[0].iter, cfg_of(f).node_of(loops[0]))
     it1 = ex.expand(loops[1].iter, cfg_of(f).node_of(loops[1]))
     t0 = src(it0)
@@ -558,7 +567,9 @@ def facades(ctx, o):
             o.site(f, c, "remove(x) ... insert(_, x) on every path")
     # sort
     f = prog.func('task._ChildrenList.sort')
-    st = [x for x in facts.attr_stores(f, '_list')]
+    st = [(a, None, b) for a, b, c in T.list_replacements(f)]
+    if not st:
+        o.refute(f, f.node, 'sort', "sort never replaces the contents of the child list")
     for s_, tgt, val in st:
         if isinstance(val, ast.Call) and isinstance(val.func, ast.Name) and val.func.id == 'sorted' and val.args and match("self._list", val.args[0]):
             o.site(f, s_, "self._list = sorted(self._list, ...)")
@@ -567,7 +578,7 @@ def facades(ctx, o):
     _published(ctx, o, f)
     # reorder
     f = prog.func('task._ChildrenList.reorder')
-    st = [x for x in facts.attr_stores(f, '_list')]
+    st = [(a, None, b) for a, b, c in T.list_replacements(f)]
     fl = flow_of(f)
     if len(st) != 1:
         o.refute(f, f.node, 'reorder', "reorder does not replace the list exactly once")
